@@ -289,7 +289,7 @@ int main(int argc, char **argv)
   std::string variant = vh::st().variant;
   const bool tsan     = variant.find("tsan") != std::string::npos;
   vh::rule(
-      "images: every width x height in 1..17 (thorough 1..33) plus a few large sizes x 6 writer variants with random pixels in exact-size "
+      "images: every width x height in 1..17 (thorough 1..33) plus large sizes (every power of two 64..65536 +-1 as width and as height, random widths up to 70000) x 6 writer variants with random pixels in exact-size "
       "buffers, decoded by an independent reader; traces: scenarios (threads 0..8, events per thread in {0,1,8191,8192,8193,20000,random}, "
       "nesting depth <= 6, with/without process name and main-thread events), each in a fresh process, checked offline by "
       "oracle/trace_check.py; distinct = hash of (format,width,height) / (threads,length,flags); non-trivial = more than one pixel / at least "
@@ -315,6 +315,26 @@ int main(int argc, char **argv)
         fmts.push_back(f);
         Ws.push_back(big[b][0]);
         Hs.push_back(big[b][1]);
+      }
+      // wide and tall images: every power of two 64..65536 with its two neighbours as the width (height 1..3) and
+      // as the height (width 1..3), plus random wide sizes; rows are staged through a per-row buffer in the
+      // writer, so row length is an input dimension of its own
+      vh::Rng rw(vh::seed(), 2000 + f);
+      for (int p2 = 64; p2 <= 65536; p2 *= 2)
+        for (int d = -1; d <= 1; ++d) {
+          fmts.push_back(f);
+          Ws.push_back(p2 + d);
+          Hs.push_back((int)rw.range(1, 3));
+          if (p2 <= 16384) {
+            fmts.push_back(f);
+            Ws.push_back((int)rw.range(1, 3));
+            Hs.push_back(p2 + d);
+          }
+        }
+      for (long i = 0, n = vh::tier(6, 40); i < n; ++i) {
+        fmts.push_back(f);
+        Ws.push_back((int)rw.range(1500, 70000));
+        Hs.push_back((int)rw.range(1, 4));
       }
     }
   long nImg = (long)fmts.size();
